@@ -91,12 +91,55 @@ class HashCtx(adcio.IdxCtx):
         return self.map[idx]
 
 
+POLY_DELTA = "delta~"
+
+
+def conv_poly(p, ctx):
+    """unexpanded sum factor (a*b + c*d); unlike adcio.conv_poly a summand
+    may contain Kronecker deltas (kept as ("D", i, j) atoms: evaluate_deltas
+    does not evaluate them)"""
+    tensor = (AntiSymmetricTensor, NonSymmetricTensor)
+    terms = []
+    for t in Add.make_args(p):
+        c, ts = Fraction(1), []
+        for f in Mul.make_args(t):
+            base, n = (f.args if isinstance(f, Pow) else (f, 1))
+            if f.is_number:
+                c2, r = adcio._split_number(f)
+                if r:
+                    raise adcio.Unsupported("sqrt in polynomial")
+                c *= c2
+            elif isinstance(base, tensor) and getattr(n, "is_Integer", True) \
+                    and n > 0:
+                ts.extend([adcio.conv_tensor(base, ctx)] * int(n))
+            elif isinstance(f, KroneckerDelta):
+                ts.append(("D", ctx.conv(f.args[0]), ctx.conv(f.args[1])))
+            else:
+                raise adcio.Unsupported(f"polynomial factor {f!r}")
+        terms.append((c, tuple(ts)))
+    return ("P", tuple(terms))
+
+
 def conv_base(b, ctx):
     if isinstance(b, Fd):
         return ("T", "KNonSym", "a+", 0, (ctx.conv(b.args[0]),), ())
     if isinstance(b, F):
         return ("T", "KNonSym", "a-", 0, (ctx.conv(b.args[0]),), ())
+    if isinstance(b, Add):
+        return conv_poly(b, ctx)
     return adcio.conv_base(b, ctx)
+
+
+def coq_view(a):
+    """atom as given to Coq: a delta inside a polynomial factor becomes the
+    symmetric tensor 'delta~' (Core.Expr polynomials hold tensors only; the
+    theorems hold for arbitrary values of that tensor, and evaluate_deltas
+    must treat it like any tensor)"""
+    if a[0] != "P":
+        return a
+    return ("P", tuple(
+        (c, tuple(("T", "KSym", POLY_DELTA, 1, (t[1],), (t[2],))
+                  if t[0] == "D" else t for t in ts)) for c, ts in a[1]))
 
 
 def conv_args(expr, ctx):
@@ -134,13 +177,13 @@ def coq_state(state):
         return "None"
     coef, objs = state
     return ("(Some (St " + adcio.coq_q(coef) + " " + adcio.coq_list(
-        f"({adcio.coq_atom(a)}, ({z})%Z)" for a, z in objs) + "))")
+        f"({adcio.coq_atom(coq_view(a))}, ({z})%Z)" for a, z in objs) + "))")
 
 
 def coq_state_raw(state):
     coef, objs = state
     return ("(St " + adcio.coq_q(coef) + " " + adcio.coq_list(
-        f"({adcio.coq_atom(a)}, ({z})%Z)" for a, z in objs) + ")")
+        f"({adcio.coq_atom(coq_view(a))}, ({z})%Z)" for a, z in objs) + ")")
 
 
 def coq_idx_list(lst):
@@ -266,6 +309,48 @@ def random_tensor(rng, pool, must, extra_pool):
     return SymmetricTensor("w", tuple(up), tuple(lo), rng.choice([0, 1]))
 
 
+def random_poly(rng, pool, idx, extras, others):
+    """an unexpanded sum factor; one or two summands carry a Kronecker delta
+    delta_{x y}: x is an index of the product (often one linked by the outer
+    deltas), y a general index without spin that never sits on an outer
+    delta (so no substitution can turn the inner delta into 1 or 0) but often
+    on another tensor of the product"""
+    def some_index():
+        r = rng.random()
+        if r < 0.5:
+            return rng.choice(idx)
+        if r < 0.8 and extras:
+            return rng.choice(extras)
+        e = pool.fresh(random_sort(rng))
+        extras.append(e)
+        return e
+    ys = []
+    summands = []
+    n_delta = rng.choice([1, 1, 2])
+    for k in range(rng.randint(2, 3)):
+        fac = []
+        if k < n_delta:
+            y = pool.fresh(("general", ""))
+            ys.append(y)
+            fac.append(KroneckerDelta(some_index(), y))
+        for _ in range(rng.randint(1, 2)):
+            ids = [some_index() for _ in range(rng.randint(1, 2))]
+            if ys and rng.random() < 0.5:
+                ids.append(rng.choice(ys))
+            fac.append(NonSymmetricTensor(rng.choice(["u", "v"]), tuple(ids)))
+        summands.append(Mul(rng.choice([1, 1, -1, 2, Rational(1, 3)]), *fac))
+    poly = Add(*summands)
+    if not isinstance(poly, Add):
+        poly = poly + NonSymmetricTensor("u", (some_index(),))
+    if rng.random() < 0.2:
+        poly = poly ** 2
+    # the inner delta index on another tensor of the product
+    carry = [y for y in ys if rng.random() < 0.7]
+    if carry:
+        poly = poly * NonSymmetricTensor("y", tuple(carry))
+    return poly
+
+
 def gen_case(rng, max_deltas=6, cover=True):
     """returns (expr, explicit targets or None, info)"""
     pool = IndexPool(rng)
@@ -287,6 +372,18 @@ def gen_case(rng, max_deltas=6, cover=True):
     objs = [KroneckerDelta(a, b) for a, b in pairs]
     # which delta indices are carried by other objects
     carried = [x for x in idx if rng.random() < (0.75 if cover else 0.45)]
+    if rng.random() < 0.2:
+        # an index that shares its name with another index of different spin
+        # (j / j_a); often the first one sits on a delta only (a target)
+        x = rng.choice(idx)
+        spin = rng.choice([sp for sp in ("", "a", "b") if sp != x.spin])
+        if (x.name, spin) not in pool.used:
+            pool.used.add((x.name, spin))
+            twin = get_symbols(x.name, spin if spin else None)[0]
+            if twin.space == x.space:
+                objs.append(NonSymmetricTensor("z", (twin,)))
+                if rng.random() < 0.7:
+                    carried = [c for c in carried if c is not x]
     rng.shuffle(carried)
     while carried:
         k = rng.randint(1, min(3, len(carried)))
@@ -296,6 +393,10 @@ def gen_case(rng, max_deltas=6, cover=True):
         objs.append(random_tensor(rng, pool, [extra_pool()], extra_pool))
     if rng.random() < 0.15 and len(objs) > n:
         objs.append(objs[-1])                      # a square
+    has_poly = False
+    if rng.random() < 0.3 and len(objs) > n:
+        objs.append(random_poly(rng, pool, idx, extras, objs[n:]))
+        has_poly = True
     coef = rng.choice([1, 1, -1, 2, Rational(1, 2), Rational(-1, 4),
                        sqrt(2), 1 / sqrt(2)])
     expr = Mul(coef, *objs)
@@ -325,7 +426,7 @@ def gen_case(rng, max_deltas=6, cover=True):
             while need:
                 must, need = need[:3], need[3:]
                 expr = expr * NonSymmetricTensor("x", tuple(must))
-    return expr, tg, {"deltas": n, "shape": shape}
+    return expr, tg, {"deltas": n, "shape": shape, "poly": has_poly}
 
 
 # --------------------------------------------------------------------------
